@@ -132,7 +132,9 @@ def tlc(specdir, module, cfg=None, workers=8, timeout=900, heap="8g", args=(), f
     for fn, content in (files or {}).items():
         with open(os.path.join(wd, fn), "w") as f:
             f.write(content)
-    cmd = ["java", "-XX:+UseParallelGC", "-Xmx" + heap, "-Xss256m", "-cp", TLA_CP, "tlc2.TLC",
+    jtmp = os.path.join(wd, "jtmp")
+    os.makedirs(jtmp, exist_ok=True)
+    cmd = ["java", "-XX:+UseParallelGC", "-Xmx" + heap, "-Xss256m", "-Djava.io.tmpdir=" + jtmp, "-cp", TLA_CP, "tlc2.TLC",
            "-workers", str(workers), "-metadir", os.path.join(wd, "meta-%d" % time.time_ns())]
     if cfg:
         cmd += ["-config", cfg]
@@ -352,6 +354,78 @@ class FamilyRun:
                 json.dump(r, f)
             os.replace(tmp, self.path)
             return r
+
+
+def run_harness(binary, testname, cases, wd, cpus=None, tag="", extra_env=None, timeout=3000):
+    """Runs an overlay harness test over a list of cases (JSON lines in, JSON lines out).
+    The harness exits 4 (controlled scheduler stalled) or 5 (free-running hang) after
+    writing the trace of the case in flight; the run is then resumed after that case."""
+    cases_path = os.path.join(wd, "cases%s.ndjson" % tag)
+    with open(cases_path, "w") as f:
+        for c in cases:
+            f.write(json.dumps(c) + "\n")
+    op = os.path.join(wd, "traces%s.ndjson" % tag)
+    open(op, "w").close()
+    resume = ""
+    for attempt in range(80):
+        env = dict(os.environ, VERIF_CASES=cases_path, VERIF_OUT=op, VERIF_RESUME_AFTER=resume)
+        env.update(extra_env or {})
+        cmd = [binary, "-test.run", "^%s$" % testname, "-test.timeout", "%ds" % timeout]
+        if cpus:
+            cmd = ["taskset", "-c", "0-%d" % (cpus - 1)] + cmd
+        p = subprocess.run(cmd, env=env, stdout=subprocess.PIPE, stderr=subprocess.STDOUT, text=True, cwd=wd)
+        if p.returncode == 0:
+            break
+        if p.returncode in (4, 5):
+            last = None
+            with open(op) as f:
+                for line in f:
+                    last = line
+            if last is None:
+                raise Inconclusive("harness %s stalled before its first case:\n%s" % (testname, p.stdout[-2000:]))
+            resume = json.loads(last)["id"].split(".")[0]
+            continue
+        raise Inconclusive("harness %s failed (exit %d):\n%s" % (testname, p.returncode, p.stdout[-3000:]))
+    else:
+        raise Inconclusive("harness %s kept stalling" % testname)
+    traces = []
+    with open(op) as f:
+        for line in f:
+            traces.append(json.loads(line))
+    return traces
+
+
+def eval_drift(specdir, module, cfg, lines, per_shard=40, max_shards=12):
+    """Validates controlled traces against a design spec with a total trace spec that prints
+    <<"DRIFT", json>> for every trace it cannot follow and <<"DONE", n, k>> at the end."""
+    if not lines:
+        return []
+    shards = max(1, min(max_shards, (len(lines) + per_shard - 1) // per_shard))
+    parts = [lines[i::shards] for i in range(shards)]
+
+    def run(part):
+        wd = scratch("trd-")
+        with open(os.path.join(wd, "trace.ndjson"), "w") as f:
+            for t in part:
+                f.write(json.dumps(t, separators=(",", ":")) + "\n")
+        rc, out, _ = tlc(specdir, module, cfg=cfg, workers=1, timeout=1800, heap="3g", cwd=wd)
+        done = tlc_prints(out, "DONE")
+        if not done or "Error:" in out:
+            raise Inconclusive("trace validation by %s failed:\n%s" % (module, out[-2500:]))
+        shutil.rmtree(wd, ignore_errors=True)
+        return tlc_prints(out, "DRIFT")
+
+    res = []
+    with ThreadPoolExecutor(max_workers=shards) as ex:
+        for r in ex.map(run, parts):
+            res.extend(r)
+    seen, out = set(), []
+    for d in res:
+        k = json.dumps(d, sort_keys=True)
+        if k not in seen:
+            seen.add(k)
+            out.append(d)
+    return out
 
 
 def run_cmd(cmd, **kw):
